@@ -395,6 +395,7 @@ P["C12"] = {
     "obligations": [
         K("c12.cq_drop", "cq.rs", C + "c12_cq_drop", "Completions::drop(shared): enter(flush: min_complete MAX, SQ_WAIT iff kernel thread, 1 s) -> register(SYNC_CANCEL, ANY|ALL, 1 s) -> enter(1, GETEVENTS, 0) -> poll processes what that produced; every step may fail (all errnos) without skipping the later ones", ["io_uring::cq::Completions::drop"]),
         K("c12.shared.new_drop", "uring_mod.rs", U + "c12_shared_new_drop", "Shared: munmap(entries) then munmap(ring) with the mapped lengths, ring fd closed last and once", ["io_uring::<impl Drop for Shared>::drop"]),
+        K("c12.shared.drop_flushes", "uring_mod.rs", U + "c12_shared_drop_flushes", "handles may outlive the Ring: requests still queued when the last handle goes away (the CLOSE of an AsyncFd dropped after the Ring) are handed to the kernel before the ring is unmapped and closed; a failing flush does not stop the teardown", ["io_uring::<impl Drop for Shared>", "io_uring::Shared::enter"]),
         K("c12.completions.new_drop", "cq.rs", C + "c12_completions_new_drop", "Completions: munmap(ring, ring_len) once; never closes the fd", ["io_uring::cq::<impl Drop for Completions>::drop"]),
         K("c12.pool.new_drop", "uio.rs", UIO + "c08_pool_new_drop", "ReadBufPool: UNREGISTER_PBUF_RING then dealloc of both allocations with the creation layouts", ["io_uring::io::<impl Drop for ReadBufPool>::drop"], bounded="pool_size in {1,2}", tier="thorough"),
         K("c12.after_ring.asyncfd_drop", "fd.rs", F + "c07_drop", "AsyncFd drop path needs only Arc<Shared> (no Completions exists in the harness)", ["io_uring::fd::<impl Drop for AsyncFd>::drop"]),
